@@ -316,14 +316,41 @@ def build_harness(name, harness_src, repo_srcs, inc=SMT_INC, flags=(), key=""):
 # Paired execution
 # ----------------------------------------------------------------------------------------------
 
+RSS_LIMIT_KB = int(os.environ.get("VERIF_RSS_LIMIT_MB", "6000")) * 1024
+
+
 def _run_stream(cmd, lines, timeout, env=None):
+    """run `cmd` on the lines; a process that outgrows RSS_LIMIT (a broken build can allocate without end) is killed and
+    reported like a timeout"""
+    import threading
     data = ("\n".join(lines) + "\n").encode()
+    p = subprocess.Popen(cmd, stdin=subprocess.PIPE, stdout=subprocess.PIPE, stderr=subprocess.PIPE, env=env)
+    killed = []
+
+    def watch():
+        while p.poll() is None:
+            try:
+                with open(f"/proc/{p.pid}/status") as fh:
+                    for ln in fh:
+                        if ln.startswith("VmRSS:"):
+                            if int(ln.split()[1]) > RSS_LIMIT_KB:
+                                killed.append("rss")
+                                p.kill()
+                            break
+            except OSError:
+                pass
+            time.sleep(0.5)
+    th = threading.Thread(target=watch, daemon=True)
+    th.start()
     try:
-        p = subprocess.run(cmd, input=data, stdout=subprocess.PIPE, stderr=subprocess.PIPE, timeout=timeout, env=env)
-        return p.returncode, p.stdout.decode("utf-8", "replace"), p.stderr.decode("utf-8", "replace")
-    except subprocess.TimeoutExpired as e:
-        out = e.stdout.decode("utf-8", "replace") if e.stdout else ""
-        return "timeout", out, ""
+        out, err = p.communicate(data, timeout=timeout)
+        if killed:
+            return "timeout", out.decode("utf-8", "replace"), "memory limit exceeded"
+        return p.returncode, out.decode("utf-8", "replace"), err.decode("utf-8", "replace")
+    except subprocess.TimeoutExpired:
+        p.kill()
+        out, err = p.communicate()
+        return "timeout", (out or b"").decode("utf-8", "replace"), ""
 
 
 def run_lines(cmd, lines, case_prefix=None, timeout=600, env=None, max_restarts=5000):
@@ -433,14 +460,14 @@ def run_pair(component, harness_exe, lines, case_prefix=None, timeout=900, impl_
     return impl, model, aborts, maborts
 
 
-def run_impl_parallel(cmd, lines, case_prefix=None, timeout=900, env=None):
+def run_impl_parallel(cmd, lines, case_prefix=None, timeout=900, env=None, max_restarts=5000):
     """run only the implementation side over the lines, in parallel chunks"""
     from concurrent.futures import ThreadPoolExecutor
     chunks = chunked(lines, NCPU, case_prefix)
     out, aborts = [], []
     with ThreadPoolExecutor(NCPU) as ex:
         off = 0
-        for ch, (o, ab) in zip(chunks, ex.map(lambda ch: run_lines(cmd, ch, case_prefix, timeout, env), chunks)):
+        for ch, (o, ab) in zip(chunks, ex.map(lambda ch: run_lines(cmd, ch, case_prefix, timeout, env, max_restarts), chunks)):
             out += o
             aborts += [(off + i, w, s) for (i, w, s) in ab]
             off += len(ch)
